@@ -162,6 +162,7 @@ inductive Ev (κ : Type)
   | ret (c : Nat) (o : Outcome)                            -- call c returned
   | crash                                                  -- nil dereference in evictPreparedID
   | hang (c : Nat)                                         -- harness only: call c did not return although every frame was answered
+  deriving DecidableEq
 
 structure Flight (κ : Type) where
   key     : κ
